@@ -321,6 +321,17 @@ pub fn run_iso(ck: &mut Check, section: &'static str, cfg: &DriverCfg) {
         if interesting && s.samples.len() < 3 && inp.data.len() <= 600 {
             s.samples.push(serde_json::json!({"target": TARGETS[inp.target].name, "origin": inp.origin, "input_hex": hex::encode(&inp.data), "class": r.class}));
         }
+        // C08 part C: real CDN files must rebuild to the identical bytes
+        let verdict = match verdict {
+            Ok(None) if cfg.fixpoint && inp.origin.starts_with("seed fixture:") && r.accepted && r.class != "ok:identical" => Ok(Some((
+                format!("{id}:{}:cdn-fixture-does-not-rebuild-byte-identically", TARGETS[inp.target].name),
+                format!("{} parses and reaches a fixed point, but build(parse(f)) != f", inp.origin),
+            ))),
+            v => v,
+        };
+        if cfg.fixpoint && inp.origin.starts_with("seed fixture:") {
+            *s.classes.entry(format!("cdn-fixture:{}", if r.class == "ok:identical" { "byte-identical" } else { "other" })).or_default() += 1;
+        }
         match verdict {
             Err(()) => s.skipped_other_property += 1,
             Ok(None) => {}
